@@ -121,7 +121,7 @@ FLOAT_TYS = ('f64', 'f32')
 BIG = {'f64': 1e300, 'f32': 1e30}
 TINY = {'f64': 1e-300, 'f32': 1e-30}
 
-CONTINUOUS = ['standard_normal', 'normal', 'log_normal', 'exp1', 'exp', 'gamma', 'chi_squared', 'student_t',
+CONTINUOUS = ['standard_normal', 'normal', 'normal_cv', 'log_normal', 'log_normal_cv', 'pert_mean', 'exp1', 'exp', 'gamma', 'chi_squared', 'student_t',
               'fisher_f', 'beta', 'pert', 'triangular', 'cauchy', 'pareto', 'weibull', 'gumbel', 'frechet',
               'skew_normal', 'inverse_gaussian', 'nig']
 DISCRETE_F = ['poisson', 'zipf', 'zeta']
@@ -153,6 +153,19 @@ def family_cases(fam, ty, tier, seed):
         add([0.0, -0.0], ('c03',))
         for _ in range(R // 3):
             add([rnd.uniform(-1e3, 1e3), rnd.loguniform(1e-3, 1e3) * rnd.choice([1, 1, -1])])
+    elif fam == 'normal_cv':
+        for m, cv in [(10.0, 0.5), (1024.0, 1.0 / 256.0), (-3.0, 2.0), (1.0, 1e-3), (1e6, 0.25)]:
+            add([m, cv])
+        for _ in range(R // 6):
+            add([rnd.uniform(-100, 100) or 1.0, rnd.loguniform(1e-3, 10.0)])
+    elif fam == 'log_normal_cv':
+        for m, cv in [(3.0, 0.5), (1.0, 1.0), (2.718281828, 1.3108324944), (10.0, 0.1), (0.25, 3.0), (1e3, 2.0), (1.0, 1e-3)]:
+            add([m, cv])
+        for _ in range(R // 6):
+            add([rnd.loguniform(1e-3, 1e3), rnd.loguniform(1e-2, 10.0)])
+    elif fam == 'pert_mean':
+        for mn, mx, mean, sh in [(0.0, 1.0, 0.5, 4.0), (0.0, 1.0, 0.3, 4.0), (2.0, 10.0, 4.0, 1.0), (-1.0, 1.0, 0.25, 8.0), (0.0, 100.0, 20.0, 20.0)]:
+            add([mn, mx, mean, sh])
     elif fam == 'log_normal':
         lim = 700.0 if ty == 'f64' else 80.0
         for m, s in [(0.0, 1.0), (0.0, 0.25), (-2.0, 3.0), (5.0, 0.01), (lim * 0.8, lim / 50), (-lim * 0.8, lim / 50), (0.0, lim / 10), (1.0, -0.5)]:
@@ -304,6 +317,9 @@ def family_cases(fam, ty, tier, seed):
         lmax = 1e15 if ty == 'f64' else 2.0 ** 20
         for l in straddle(12.0, ty) + [1e-3, 0.1, 1.0, 3.0, 10.0, 20.0, 50.0, 100.0, 1e3, 1e5, 1e7 if ty == 'f64' else 2.0 ** 18, lmax]:
             add([l], ('law', 'c03', 'switch'))
+        # derived field exp(-lambda) rounds to exactly 1: sampler must still return 0 and serialise
+        for l in ([1e-17, 1e-300] if ty == 'f64' else [1e-8, 1e-30]):
+            add([l], ('c03', 'switch'))
         # C03/C05 only: up to MAX_LAMBDA (integers are not exact any more, the law is not judged)
         if ty == 'f64':
             for l in [1e17, 1.8e19, 1.844e19]:
@@ -396,6 +412,8 @@ def discrete_u_cases(fam, tier, seed):
         # BINV (n p < 10, 1 - p != 1) with huge n
         for n, p in [(2 ** 55, 2.0 ** -52), (2 ** 50, 2.0 ** -47), (10 ** 12, 5e-12), (2 ** 40, 3e-12), (2 ** 33, 1e-9), (2 ** 62, 2.0 ** -59), (10 ** 15, 9.9e-15)]:
             add([n, p], ('law', 'c03', 'switch'))
+        for n, p in [(1000, 1e-20), (5, 1e-18), (7, 1 - 2.0 ** -53)]:
+            add([n, p], ('c03', 'switch'))
         for n, p in [(2 ** 63, 0.5), (2 ** 64 - 1, 0.3), (2 ** 64 - 1, 1e-19), (2 ** 64 - 1, 1 - 1e-10), (2 ** 64 - 2, 0.9), (2 ** 64 - 1, 1.0), (2 ** 64 - 1, 0.0), (2 ** 64 - 1, 2.0 ** -64)]:
             add([n, p], ('c03',))
         for _ in range(R):
